@@ -202,6 +202,7 @@ let () =
                  | "docrt" -> run_docrt id fields
                  | "decor" -> run_decor id fields
                  | "defaults" -> run_defaults id fields
+                 | "infer" -> Driver_infer.run_infer id fields field1 field
                  | f -> failwith ("unknown family " ^ f))
             | _ -> failwith "case expected"
           with Failure m -> "DRIVER-ERROR " ^ m
